@@ -4,7 +4,8 @@ correspondence: closed-form cash overrides and the default search (IsoelasticLos
 the base class, a user subclass, OCE) vs the Lean model (Model/Risk.lean: cashNeg, entropicLossCash,
 cashDefault; Float carrier), and Hedger.price vs `priceOf` on the same simulated paths.
 predicate (real code): criterion(constant sample at cash) == criterion(sample), min <= cash <= max,
-cash <= mean for risk-averse criteria, QCVaR cash = -risk, price = -cash(portfolio - payoff),
+cash <= mean for risk-averse criteria, QCVaR cash = -risk, price = -cash(portfolio - payoff) with the portfolio both from
+Hedger.compute_portfolio and written out (hedge gains minus proportional costs at the instrument's rate; linear and Black-Scholes hedges),
 price(payoff + k) = price(payoff) + k under the same seed, ERM price = loss.
 """
 import math
@@ -159,17 +160,24 @@ def check(ctx):
         which = g.choice(["erm", "es", "eloss", "qcvar", "iso"])
         crit = {"erm": nn.EntropicRiskMeasure(g.choice([0.5, 1.0])), "es": nn.ExpectedShortfall(g.choice([0.1, 0.5])),
                 "eloss": nn.EntropicLoss(1.0), "qcvar": nn.QuadraticCVaR(g.choice([1.0, 10.0])), "iso": nn.IsoelasticLoss(0.5)}[which]
-        stock = BrownianStock(cost=g.choice([0.0, 1e-3]), sigma=0.3, dtype=dt)
+        cost_rate = g.choice([0.0, 1e-3, 2.0 ** -9, 2.0 ** -6])
+        stock = BrownianStock(cost=cost_rate, sigma=0.3, dtype=dt)
         deriv = g.choice([EuropeanOption, LookbackOption])(stock, strike=g.choice([0.9, 1.0]), maturity=5 / 250)
         k_shift = g.choice([0.25, 1.0, -0.5])
-        lin = torch.nn.Linear(2, 1, dtype=dt)
-        with torch.no_grad():
-            lin.weight.copy_(torch.tensor([[0.5, 0.25]], dtype=dt))
-            lin.bias.copy_(torch.tensor([0.1], dtype=dt))
-        hedger = Hedger(lin, ["moneyness", "time_to_maturity"], criterion=crit)
+        model_kind = g.choice(["linear", "linear", "bs"])
+        if model_kind == "bs":
+            bs = nn.BlackScholes(deriv).to(dt)       # a model that trades: the delta moves with the simulated spot
+            hedger = Hedger(bs, bs.inputs(), criterion=crit)
+        else:
+            lin = torch.nn.Linear(2, 1, dtype=dt)
+            with torch.no_grad():
+                lin.weight.copy_(torch.tensor([[0.5, 0.25]], dtype=dt))
+                lin.bias.copy_(torch.tensor([0.1], dtype=dt))
+            hedger = Hedger(lin, ["moneyness", "time_to_maturity"], criterion=crit)
         n_paths, n_times = g.choice([1, 5, 50]), g.choice([1, 1, 2, 3])
         seed = g.randint(0, 10 ** 6)
-        case = {"criterion": which, "n_paths": n_paths, "n_times": n_times, "seed": seed, "derivative": type(deriv).__name__, "k": k_shift}
+        case = {"criterion": which, "n_paths": n_paths, "n_times": n_times, "seed": seed, "derivative": type(deriv).__name__, "k": k_shift,
+                "cost": cost_rate, "model": model_kind}
         if which == "iso":
             deriv.add_clause("pos", lambda d, p: p - 3.0)          # keep portfolio - payoff positive for the isoelastic utility
         torch.manual_seed(seed)
@@ -184,7 +192,7 @@ def check(ctx):
             ctx.fail("Hedger.price carries an autograd graph by default", case, key="price:grad")
         # same paths, by hand: - cash(portfolio - payoff), averaged over n_times evaluations
         torch.manual_seed(seed)
-        vals, losses = [], []
+        vals, losses, vals_w, traded = [], [], [], 0.0
         with torch.no_grad():
             for _ in range(n_times):
                 deriv.simulate(n_paths=n_paths)
@@ -192,7 +200,25 @@ def check(ctx):
                 z = deriv.payoff()
                 vals.append(float(-crit.cash(pf - z)))
                 losses.append(float(crit(pf, z)))
+                # the hedge portfolio written out (not through Hedger.compute_portfolio / functional.pl): gains of the hedge held
+                # over each step minus the proportional cost, at the instrument's rate, of every change of the position
+                s_, u_ = stock.spot, hedger.compute_hedge(deriv)[:, 0, :]
+                wealth = torch.zeros(n_paths, dtype=dt) - stock.cost * s_[:, 0] * u_[:, 0].abs()
+                for t_ in range(s_.size(1) - 1):
+                    wealth = wealth + u_[:, t_] * (s_[:, t_ + 1] - s_[:, t_]) - stock.cost * s_[:, t_ + 1] * (u_[:, t_ + 1] - u_[:, t_]).abs()
+                vals_w.append(float(-crit.cash(wealth - z)))
+                traded = max(traded, float(u_[:, 0].abs().max()))
         exp = sum(vals) / n_times
+        exp_w = sum(vals_w) / n_times
+        ctx.stats[f"price:cost={'zero' if cost_rate == 0.0 else 'nonzero'}:{'trades' if traded > 0 else 'no-trade'}"] += 1
+        # erm / es / eloss cash amounts are 1-Lipschitz in the sample (monotone, translation invariant) and the wealth above differs from
+        # the library's by summation order and the float32 rounding of the cost rate (<= 6e-8 * cost paid): 1e-9.  The quadratic CVaR and
+        # the default search (iso) solve for a root with precision 1e-6: same tolerance as the shift predicate below.
+        tolw = 1e-9 if which in ("erm", "es", "eloss") else 2e-5
+        if abs(float(price) - exp_w) > tolw * max(1.0, abs(exp_w)):
+            ctx.fail("Hedger.price differs from minus the cash amount of (hedge gains - transaction costs at the instrument's rate - payoff) "
+                     "written out on the simulated paths", case, key=f"price:{which}:wealth" if cost_rate == 0.0 else f"price:{which}:wealth-with-cost",
+                     detail={"price": float(price), "expected": exp_w, "cost": cost_rate})
         if abs(float(price) - exp) > 1e-9 * max(1.0, abs(exp)):
             ctx.fail("Hedger.price differs from minus the cash amount of (portfolio - payoff) on the simulated paths", case,
                      key=f"price:{which}:value", detail={"price": float(price), "expected": exp})
@@ -210,4 +236,4 @@ def check(ctx):
     return ctx.finish(
         rule="criteria {EntropicRiskMeasure, EntropicLoss, IsoelasticLoss, ExpectedShortfall, QuadraticCVaR, user subclass and EntropicLoss forced "
              "through the default search} on (N,) and (N,M) samples incl. constants and ties, targets; Hedger.price with frozen seeds, n_times in "
-             "{1,2,3}, payoff shifts through a clause; every case non-trivial; distinct = sha1 of canonical case")
+             "{1,2,3}, cost rates {0, 1e-3, 2^-9, 2^-6}, linear / Black-Scholes hedges, payoff shifts through a clause; every case non-trivial; distinct = sha1 of canonical case")
